@@ -167,6 +167,13 @@ func (i *messageField) Scan(src interface{}) error {
 		return fmt.Errorf("unsupported Scan, storing driver.Value type %T into type %T", src, *i)
 	}
 
+	// Like every other way of obtaining a field value, Scan must not let a newline
+	// through - it would end up verbatim in the wire format.
+	if !isSingleLine(i.value) {
+		*i = messageField{}
+		return errors.New("input is multiline")
+	}
+
 	i.set = true
 
 	return nil
